@@ -44,6 +44,13 @@ def tus(tier, seed):
         res.append(dict(name='C05_%d' % (i // per), src=body, compiler='g++'))
         if tier == 'thorough' and (i // per) % 5 == 0:
             res.append(dict(name='C05_%d_clang' % (i // per), src=body, compiler='clang++'))
+    # unary minus / shifts by a constant at digit counts that exactly fill the storage type (always)
+    body = '#include "%s"\nint main(){ install(); Rng rng(seed_from_env()+4242);\n' % (__file__.replace('.py', '.h'))
+    for (d, n, k) in [(8, 'u8', 1), (16, 'u16', 2), (32, 'u32', 3), (64, 'u64', 5), (32, 'u8', 1), (16, 'u8', 8), (64, 'u32', 8),
+                      (7, 'i8', 1), (15, 'i16', 2), (31, 'i32', 3), (63, 'i64', 5), (31, 'i8', 4), (63, 'i32', 1), (33, 'u32', 2)]:
+        body += '  un<%d, %s, %d>(rng);\n' % (d, CT[n], k)
+    body += '}\n'
+    res.append(dict(name='C05_unary_full', src=body, compiler='g++'))
     return res
 
 
